@@ -7,7 +7,9 @@ spec -> code : SamplerMC.tla enumerates six bounded case spaces (inverse-CDF tab
                mechanisms (searchsorted + clamp + line; Cholesky column by column, reshape and
                multiply; choice without replacement; direct and rotated cap paths with the
                radians->degrees conversion count) as actions against them.  Every enumerated
-               case is exported and executed against the real code:
+               case is exported and executed against the real code (the SCALE cases - draws of 10^5 .. 2*10^6
+               values across the 2^20 / 2^21 boundaries - as block summaries judged through laws that TLC
+               checks on every small sequence: family "law"):
                  * stub generators feed lattice deviates (u = j/16, the exported cumulative
                    values and a point just above every flat stretch - density values include 0,
                    and accumulated input (cumulative=True) is a second kind of table; radial deviates 0, 1/4, 1- and position angles 0, 90, 180, 270 degrees;
@@ -1156,7 +1158,11 @@ def run(ctx):
                 "%d cases) with stub deviates (3 radial x 4 position angles; 3x3 box fractions) and seeded legacy / new-style "
                 "generators; plus seeded larger cases (4x4, 5x5 factors; 17 zero patterns on two 7-node grids and random tables "
                 "with zeros up to 6 nodes, both kinds, u = j/32; generic centres with radii "
-                "log-uniform over 1e-6..180 deg; generic and pole-hugging boxes); a case is distinct by (operation, abstract "
+                "log-uniform over 1e-6..180 deg; generic and pole-hugging boxes); plus the exported SCALE cases judged through "
+                "the laws TLC checks on the small scope (summary law for index selection, block law for pointwise sky clauses, "
+                "sorted-pairs law for monotonicity): random_indices on ranges 10^6..3*10^6 with n = range/10, randcap / randsphere "
+                "with 2^20-1 .. 2^21+7 points (direct, forced-rotated and polar, with and without radii, eq / xyz; summaries per "
+                "block of 2^18 points), Generator.sample with 10^6 draws; a case is distinct by (operation, abstract "
                 "case, concretisation) and non-trivial always" %
                 (B["MaxNodes"], sorted(B["XVals"]), sorted(B["PVals"]), len(SCONC), B["CholMaxN"], B["CholMaxN"],
                  sorted(B["LDiag"]), sorted(t - B["LOffShift"] for t in B["LOffP"]), sorted(B["CholNs"]), B["IdxMax"],
@@ -1180,6 +1186,10 @@ def run(ctx):
                        "first interval) admits no interpolation: every outcome is accepted",
                        "below the first tabulated cumulative value only monotonicity (value <= right end of the leading stretch "
                        "of nodes sharing that value) is demanded; 'exactly' for grid points is read as 'to rounding'",
+                       "large draws are judged on summaries (count, min, max, distinct values; per-block counts of points "
+                       "failing each pointwise clause; sortedness of (deviate, value) pairs) whose sufficiency is a theorem of "
+                       "Sampler.tla section 7 checked by TLC on all small sequences (family law); reproducibility of the large sky "
+                       "draws is not re-checked",
                        "method='cut' (rejection sampling) is not the cumulative method of the statement and is not checked",
                        "which drawn deviate goes to which Cholesky sample is not stated: any arrangement is accepted",
                        "membership margins: box 1e-12 deg, cap 1e-9 deg; returned radius = separation to 1e-9 deg",
